@@ -45,8 +45,93 @@ type c13Reg struct {
 	early     bool
 	done      bool
 	accepted  bool
-	regWindow int  // number of windows completed when the registration was made
-	failing   bool // the callback also returns an error from every invocation (that must not keep others from running)
+	regWindow int       // number of windows completed when the registration was made
+	failing   bool      // the callback also returns an error from every invocation (that must not keep others from running)
+	group     *c13Group // non-nil: the callback VALUE registered is shared with the other members of the group (all in one list)
+}
+
+// c13Group is one callback value registered once per member, all in the same list.  Two registrations are two
+// registrations whatever the dynamic type of the value registered and however equal the two values are, so every
+// walk over the list invokes the value once per member, in registration order: invocations are attributed to the
+// members round-robin.
+type c13Group struct {
+	kind    int // 0 one pointer registered several times; 1 equal comparable struct values; 2 values of a field-less struct type
+	s       *c13State
+	members []*c13Reg // accepted registrations, in order
+	n       int
+	val     tabular.PropertyCallback
+}
+
+var c13GroupKindNames = []string{"the same pointer registered again", "equal comparable struct values", "values of a field-less struct type"}
+
+func (gr *c13Group) UpdateProperties(o tabular.PropertyOwner) error {
+	if len(gr.members) == 0 {
+		return nil
+	}
+	m := gr.members[gr.n%len(gr.members)]
+	gr.n++
+	return gr.s.fire(m, o)
+}
+
+type c13GroupVal struct{ gr *c13Group }
+
+func (v c13GroupVal) UpdateProperties(o tabular.PropertyOwner) error { return v.gr.UpdateProperties(o) }
+
+// field-less callback types: all their values are equal, and they can only reach the recorder through package state
+var (
+	c13ZGroups [6]*c13Group
+	c13ZNext   int
+)
+
+type c13Z0 struct{}
+type c13Z1 struct{}
+type c13Z2 struct{}
+type c13Z3 struct{}
+type c13Z4 struct{}
+type c13Z5 struct{}
+
+func (c13Z0) UpdateProperties(o tabular.PropertyOwner) error {
+	return c13ZGroups[0].UpdateProperties(o)
+}
+func (c13Z1) UpdateProperties(o tabular.PropertyOwner) error {
+	return c13ZGroups[1].UpdateProperties(o)
+}
+func (c13Z2) UpdateProperties(o tabular.PropertyOwner) error {
+	return c13ZGroups[2].UpdateProperties(o)
+}
+func (c13Z3) UpdateProperties(o tabular.PropertyOwner) error {
+	return c13ZGroups[3].UpdateProperties(o)
+}
+func (c13Z4) UpdateProperties(o tabular.PropertyOwner) error {
+	return c13ZGroups[4].UpdateProperties(o)
+}
+func (c13Z5) UpdateProperties(o tabular.PropertyOwner) error {
+	return c13ZGroups[5].UpdateProperties(o)
+}
+
+var c13ZVals = []tabular.PropertyCallback{c13Z0{}, c13Z1{}, c13Z2{}, c13Z3{}, c13Z4{}, c13Z5{}}
+
+func (s *c13State) groupValue(gr *c13Group) tabular.PropertyCallback {
+	if gr.val != nil {
+		return gr.val
+	}
+	gr.s = s
+	switch gr.kind {
+	case 1:
+		gr.val = c13GroupVal{gr}
+	case 2:
+		if c13ZNext < len(c13ZVals) {
+			c13ZGroups[c13ZNext] = gr
+			gr.val = c13ZVals[c13ZNext]
+			c13ZNext++
+			break
+		}
+		gr.kind = 0
+		fallthrough
+	default:
+		gr.val = gr
+	}
+	return gr.val
 }
 
 func (g *c13Reg) String() string {
@@ -66,6 +151,9 @@ func (g *c13Reg) String() string {
 	s += " " + cbTimeNames[g.when] + " " + cbTargetNames[g.target]
 	if g.failing {
 		s += " [returns an error every time]"
+	}
+	if g.group != nil {
+		s += fmt.Sprintf(" [callback value shared with its twins: %s]", c13GroupKindNames[g.group.kind])
 	}
 	if g.early {
 		s += " (registered as soon as the owner exists)"
@@ -226,7 +314,14 @@ func (s *c13State) identify(o tabular.PropertyOwner) (string, bool) {
 }
 
 func (s *c13State) callback(g *c13Reg) tabular.PropertyCallback {
-	return cbFunc(func(o tabular.PropertyOwner) error {
+	if g.group != nil {
+		return s.groupValue(g.group)
+	}
+	return cbFunc(func(o tabular.PropertyOwner) error { return s.fire(g, o) })
+}
+
+func (s *c13State) fire(g *c13Reg, o tabular.PropertyOwner) error {
+	{
 		s.evSeq++
 		tgt, live := s.identify(o)
 		key := fmt.Sprintf("c13/%d/%d", g.id, s.evSeq)
@@ -238,7 +333,7 @@ func (s *c13State) callback(g *c13Reg) tabular.PropertyCallback {
 			return fmt.Errorf("callback %d fails on purpose (invocation %d)", g.id, s.evSeq)
 		}
 		return nil
-	})
+	}
 }
 
 // flush performs every pending registration whose owner exists.
@@ -284,6 +379,10 @@ func (s *c13State) flush() {
 		s.c.Rec.Count("registrations", 1)
 		want := c13Valid(g.owner, g.target)
 		g.accepted = err == nil
+		if err == nil && g.group != nil {
+			g.group.members = append(g.group.members, g)
+			s.c.Rec.Count("registrations_sharing_their_callback_value:"+c13GroupKindNames[g.group.kind], 1)
+		}
 		s.say("register %s -> err=%v", g, err)
 		if want && err != nil {
 			s.viol("registration-refused:"+c13OwnerNames[g.owner]+"/"+cbTargetNames[g.target], fmt.Sprintf("supported registration %s was refused: %v", g, err))
@@ -675,6 +774,7 @@ var c13Triggers = []struct {
 
 func c13RunCase(c *Ctx, shape c13Shape, regs []*c13Reg, triggers []int, sample bool) {
 	s := &c13State{c: c, t: tabular.New(), shape: shape, regs: regs, desc: map[string]interface{}{}}
+	c13ZNext = 0
 	s.rows = make([]*tabular.Row, len(shape.rows))
 	s.att = make([]bool, len(shape.rows))
 	s.ncell = make([]int, len(shape.rows))
@@ -792,6 +892,9 @@ func c13Pairs(c *Ctx, i int, r *gen.R) {
 	g2 := c13Combo(2, b, sh, i%2 == 0, i/3)
 	if a == b {
 		// the same list twice: same owner instance, the first registered callback fails
+		if k := (a + si) % 4; k > 0 {
+			g1.group = &c13Group{kind: k - 1} // the two registrations hand over the same / an equal callback value
+		}
 		dup := *g1
 		dup.id = 2
 		g2 = &dup
@@ -837,7 +940,11 @@ func c13Random(c *Ctx, i int, r *gen.R) {
 		regs[k] = c13Combo(k+1, combo, sh, r.Bool(), r.Intn(1000))
 		if k > 0 && r.Chance(1, 3) {
 			// a second registration in the very same list (same owner, time and target) as an earlier one
-			dup := *regs[r.Intn(k)]
+			orig := regs[r.Intn(k)]
+			if orig.group == nil && r.Chance(2, 3) {
+				orig.group = &c13Group{kind: r.Intn(3)}
+			}
+			dup := *orig
 			dup.id = k + 1
 			dup.done, dup.accepted = false, false
 			regs[k] = &dup
